@@ -246,7 +246,7 @@ func netStreams(c *mon.Ctx, h *hostile.Harness) {
 	})
 
 	// ------------------------------------------------------------ real client functions against hostile answers
-	c.Cases("sync-client-net", c.N(16, 400), func(k *mon.Case) {
+	c.Cases("sync-client-net", c.N(16, 200), func(k *mon.Case) {
 		w := getWorld(k)
 		if w == nil {
 			return
@@ -319,7 +319,7 @@ func netStreams(c *mon.Ctx, h *hostile.Harness) {
 	})
 
 	// ------------------------------------------------------------ hostile bytes on real streams
-	c.Cases("wire", c.N(32, 1200), func(k *mon.Case) {
+	c.Cases("wire", c.N(32, 600), func(k *mon.Case) {
 		w := getWorld(k)
 		if w == nil {
 			return
